@@ -15,6 +15,7 @@ from ..handlers import HandlerFacts, concrete_handlers, stores
 from ..inifront import load_all
 from ..pyfront import ClassInfo, Program, body_without_docstring, dotted, param_names, self_attr
 from ..normalize import canon
+from ..resolve import Resolver
 from ..selftest import Edit
 
 ID = "C19"
@@ -182,8 +183,14 @@ def check_payload(prog: Program, rep: Report) -> None:
     loads = [n for n in ast.walk(main) if isinstance(n, ast.Assign) and isinstance(n.value, ast.Call) and norm(n.value.func).endswith("dill.load")]
     if len(dumps) != 1 or len(loads) != 1:
         raise AnalysisError("dill.dump / dill.load sites not unique")
-    payload = dumps[0].args[0]
+    # the dumped object may be bound to a local before the dump, the loaded one before it is unpacked
+    payload = Resolver(w).res(dumps[0].args[0])
     target = loads[0].targets[0]
+    if isinstance(target, ast.Name):
+        unpack = [n for n in ast.walk(main) if isinstance(n, ast.Assign) and isinstance(n.targets[0], (ast.Tuple, ast.List))
+                  and isinstance(n.value, ast.Name) and n.value.id == target.id]
+        if len(unpack) == 1:
+            target = unpack[0].targets[0]
     loc = Loc(res.file, loads[0].lineno, "resume.main")
     if not isinstance(payload, (ast.List, ast.Tuple)) or not isinstance(target, ast.Tuple):
         rep.ob("R19.3-payload-arity", None, loc, "payload", "payload / unpack idiom not recognised")
